@@ -322,6 +322,144 @@ pub fn case_prom(bytes: &[u8], _s: &[u8], ctx: &mut Ctx) -> Result<(), Fail> {
     Ok(())
 }
 
+// ---------------------------------------------------------------- an observation in the middle of an update
+//
+// GenerationalStorage is generic over the storage it wraps, so the harness can wrap one whose counter pauses inside
+// `increment` (before the value is applied) until an observation made on the main thread has finished. Whatever the
+// library does around the inner update, the outcome must equal SOME order of the two operations; with the update's
+// value not yet applied when the observation runs, that order is "observe, then update".
+
+struct PausingCounter {
+    value: std::sync::atomic::AtomicU64,
+    gate: std::sync::Arc<Gate>,
+}
+#[derive(Default)]
+struct Gate {
+    armed: std::sync::atomic::AtomicBool,
+    inside: std::sync::Mutex<Option<std::sync::mpsc::Sender<()>>>,
+    go: std::sync::Mutex<Option<std::sync::mpsc::Receiver<()>>>,
+}
+impl CounterFn for PausingCounter {
+    fn increment(&self, v: u64) {
+        if self.gate.armed.swap(false, std::sync::atomic::Ordering::SeqCst) {
+            if let Some(tx) = self.gate.inside.lock().unwrap().take() {
+                let _ = tx.send(());
+            }
+            if let Some(rx) = self.gate.go.lock().unwrap().take() {
+                let _ = rx.recv_timeout(Duration::from_secs(10));
+            }
+        }
+        self.value.fetch_add(v, std::sync::atomic::Ordering::SeqCst);
+    }
+    fn absolute(&self, v: u64) {
+        self.value.fetch_max(v, std::sync::atomic::Ordering::SeqCst);
+    }
+}
+struct PausingStorage(std::sync::Arc<Gate>);
+impl metrics_util::registry::Storage<Key> for PausingStorage {
+    type Counter = std::sync::Arc<PausingCounter>;
+    type Gauge = std::sync::Arc<std::sync::atomic::AtomicU64>;
+    type Histogram = std::sync::Arc<metrics_util::storage::AtomicBucket<f64>>;
+    fn counter(&self, _: &Key) -> Self::Counter {
+        std::sync::Arc::new(PausingCounter { value: Default::default(), gate: self.0.clone() })
+    }
+    fn gauge(&self, _: &Key) -> Self::Gauge {
+        std::sync::Arc::new(std::sync::atomic::AtomicU64::new(0))
+    }
+    fn histogram(&self, _: &Key) -> Self::Histogram {
+        std::sync::Arc::new(metrics_util::storage::AtomicBucket::new())
+    }
+}
+
+pub fn case_mid_update(bytes: &[u8], _s: &[u8], ctx: &mut Ctx) -> Result<(), Fail> {
+    use metrics_util::registry::GenerationalStorage;
+    let mut src = Source::new(bytes);
+    let t = 10u64;
+    #[derive(Debug)]
+    enum S {
+        Update,
+        UpdateObservedInside,
+        Advance(u64),
+        Observe,
+    }
+    let steps: Vec<S> = (0..2 + src.below(12))
+        .map(|_| match src.below(8) {
+            0 | 1 => S::Update,
+            2 | 3 => S::UpdateObservedInside,
+            4 | 5 => S::Advance(*src.pick(&[0u64, 1, 9, 10, 11, 25])),
+            _ => S::Observe,
+        })
+        .collect();
+    ctx.case(&steps);
+    let gate = std::sync::Arc::new(Gate::default());
+    let (clock, mock) = Clock::mock();
+    let registry: Registry<Key, GenerationalStorage<PausingStorage>> = Registry::new(GenerationalStorage::new(PausingStorage(gate.clone())));
+    let recency: Recency<Key> = Recency::new(clock, MetricKindMask::ALL, Some(Duration::from_nanos(t)));
+    let key = Key::from_name("k");
+    let mut st = RefState::default();
+    let mut now = 0u64;
+    let observe = |st: &mut RefState, now: u64, what: &str, si: usize| -> Result<(), Fail> {
+        let got: Option<bool> = registry.get_counter_handles().into_iter().next().map(|(k, h)| recency.should_store_counter(&k, h.get_generation(), &registry));
+        if !st.live {
+            ensure!(got.is_none(), "dropped-metric-still-listed", "step {} ({}): the counter was dropped but is listed", si, what);
+            return Ok(());
+        }
+        let dbg = format!("{:?}", st);
+        let expect = st.observe(now, Some(t), true);
+        if std::env::var("VERIF_C12_DEBUG").is_ok() {
+            eprintln!("C12 debug: step {} {} now {} model before {} -> expect {} got {:?}", si, what, now, dbg, expect, got);
+        }
+        ensure!(got == Some(expect), if expect { "kept-metric-dropped" } else { "idle-metric-not-dropped" }, "step {} ({}, t={}): should_store returned {:?}, the reference machine says {}", si, what, now, got, expect);
+        if expect {
+            let v = registry.get_counter(&key).map(|c| c.get_inner().value.load(std::sync::atomic::Ordering::SeqCst));
+            ensure!(v.is_some(), "registry-disagrees-with-verdict", "step {}: kept but not in the registry", si);
+        }
+        Ok(())
+    };
+    for (si, step) in steps.iter().enumerate() {
+        match step {
+            S::Update => {
+                registry.get_or_create_counter(&key, |c| CounterFn::increment(c, 3));
+                st.update(3, None);
+            }
+            S::UpdateObservedInside => {
+                // the handle is taken out first, so that the update runs outside the registry's locks
+                let handle = registry.get_or_create_counter(&key, |c| c.clone());
+                if !st.live {
+                    st.update(0, None); // registration alone makes it live (generation 0, no update yet)
+                    st.gen -= 1;
+                }
+                let (tx_in, rx_in) = std::sync::mpsc::channel();
+                let (tx_go, rx_go) = std::sync::mpsc::channel();
+                *gate.inside.lock().unwrap() = Some(tx_in);
+                *gate.go.lock().unwrap() = Some(rx_go);
+                gate.armed.store(true, std::sync::atomic::Ordering::SeqCst);
+                let r = std::thread::scope(|s| -> Result<(), Fail> {
+                    let h = s.spawn(move || CounterFn::increment(&handle, 3));
+                    let inside = rx_in.recv_timeout(Duration::from_secs(10)).is_ok();
+                    let r = if inside { observe(&mut st, now, "observation made while an increment is inside the storage, its value not yet applied", si) } else { Ok(()) };
+                    let _ = tx_go.send(());
+                    let _ = h.join();
+                    r
+                });
+                r?;
+                // if that observation dropped the metric, the increment still in flight lands in the storage that was
+                // just removed from the registry (the handle was obtained earlier): nothing is registered afterwards
+                if st.live {
+                    st.update(3, None);
+                }
+                ctx.nontrivial("observation-inside-an-update");
+            }
+            S::Advance(d) => {
+                mock.increment(Duration::from_nanos(*d));
+                now += d;
+            }
+            S::Observe => observe(&mut st, now, "observation", si)?,
+        }
+    }
+    Ok(())
+}
+
 fn exhaustive(pr: &PropRun) -> LaneReport {
     let start = std::time::Instant::now();
     let mut rep = LaneReport::named("exhaustive-histories-le6");
@@ -383,6 +521,7 @@ pub fn run(cfg: &RunCfg, replay: Option<&str>) -> i32 {
     pr.register("recency-direct", &case_direct);
     pr.register("prometheus-mock-clock", &case_prom);
     pr.register("exhaustive-histories-le6", &case_exhaustive_replay);
+    pr.register("observation-inside-an-update", &case_mid_update);
     if let Some(f) = replay {
         return pr.replay(f);
     }
@@ -396,6 +535,9 @@ pub fn run(cfg: &RunCfg, replay: Option<&str>) -> i32 {
     let r = run_lane(&c, "C12", &Lane { name: "prometheus-mock-clock", cases: c.cases(500_000, 10_000_000), max_len: 160, sched_len: 0, workers: 0, f: &case_prom });
     pr.push(r);
     let r = exhaustive(&pr);
+    pr.push(r);
+    // each case spawns a thread per observed update, so fewer cases and a single worker pool
+    let r = run_lane(&c, "C12", &Lane { name: "observation-inside-an-update", cases: c.cases(40_000, 1_000_000), max_len: 40, sched_len: 0, workers: 0, f: &case_mid_update });
     pr.push(r);
     pr.finish()
 }
